@@ -3,6 +3,7 @@ package main
 import (
 	"fmt"
 	"go/token"
+	"go/types"
 	"strings"
 
 	"golang.org/x/tools/go/ssa"
@@ -187,5 +188,97 @@ func c08WrapStorage(c *Ctx, r *Report, rule string) {
 			}
 		}
 		r.check(len(problems) == 0, rule, wrapName, sc.Name, c.pos(fn.Pos()), fmt.Sprintf("%d path(s): the new connection has storage of its own", len(paths)), strings.Join(dedup(problems), "; "))
+	}
+}
+
+// c08PoolReset: a sync.Pool is safe for concurrent use, but what it hands out is whatever an earlier user left in
+// it. A container taken from a pool by per-connection code therefore starts empty for the new user: a map is cleared
+// (the builtin clear, before anything reads it), a slice is cut to length 0 or to explicit bounds before its elements
+// are read (decided for the matching buffers by C08.R6 and C08.R3). Without that, one connection's state - the status
+// of its routes, say - decides another connection's routing.
+func c08PoolReset(c *Ctx, r *Report, rule string) {
+	r.rule(rule, "containers that per-connection code takes from a sync.Pool start empty: a map is cleared (builtin clear) before any lookup, range or len on it; slices are covered by C08.R6/C08.R3 (counted here so that the rule cannot pass vacuously)", 3)
+	reach := c.perConnReach()
+	for _, fn := range sortedFuncs(reach) {
+		n := 0
+		for _, ci := range callsIn(fn) {
+			kind, pool, _ := poolOp(ci)
+			call, isCall := ci.(*ssa.Call)
+			if kind != "get" || !isCall {
+				continue
+			}
+			n++
+			construct := fmt.Sprintf("%s.Get#%d", globalName(pool), n)
+			// the typed value(s) the result is asserted to
+			var maps []ssa.Value
+			other := ""
+			var walk func(v ssa.Value, d int)
+			walk = func(v ssa.Value, d int) {
+				if d > 4 || v.Referrers() == nil {
+					return
+				}
+				for _, ref := range *v.Referrers() {
+					switch x := ref.(type) {
+					case *ssa.TypeAssert:
+						if _, isMap := x.AssertedType.Underlying().(*types.Map); isMap {
+							if x.CommaOk {
+								for _, r2 := range *x.Referrers() {
+									if ex, ok := r2.(*ssa.Extract); ok && ex.Index == 0 {
+										maps = append(maps, ex)
+									}
+								}
+							} else {
+								maps = append(maps, x)
+							}
+						} else {
+							other = typeStr(x.AssertedType)
+						}
+					case *ssa.ChangeInterface, *ssa.MakeInterface:
+						walk(x.(ssa.Value), d+1)
+					}
+				}
+			}
+			walk(call, 0)
+			if len(maps) == 0 {
+				r.ok(rule, fname(fn), construct, c.ipos(call), "not a map ("+other+"): emptiness of pooled buffers is decided by C08.R6 / C08.R3")
+				continue
+			}
+			bad := ""
+			for _, m := range maps {
+				var clears []ssa.Instruction
+				for _, ref := range *m.Referrers() {
+					if cl, ok := ref.(*ssa.Call); ok && calleeID(cl) == "builtin clear" {
+						clears = append(clears, cl)
+					}
+				}
+				for _, ref := range *m.Referrers() {
+					isRead := false
+					switch x := ref.(type) {
+					case *ssa.Lookup:
+						isRead = x.X == m
+					case *ssa.Range:
+						isRead = x.X == m
+					case *ssa.Call:
+						isRead = calleeID(x) == "builtin len" && len(x.Call.Args) == 1 && x.Call.Args[0] == m
+					case *ssa.MakeClosure:
+						// captured by a closure that runs later (deferred Put) - reads inside are not followed
+					}
+					if !isRead {
+						continue
+					}
+					dominated := false
+					for _, cl := range clears {
+						if dominates(cl, ref) {
+							dominated = true
+						}
+					}
+					if !dominated && bad == "" {
+						bad = "the map taken from the pool is read at " + c.ipos(ref) + " without having been cleared first"
+					}
+				}
+			}
+			r.check(bad == "", rule, fname(fn), construct, c.ipos(call), "the pooled map is cleared before it is read",
+				bad+": it still holds what the connection that used it before left in it, so one connection's state (the status of its routes, its variables ...) decides what happens to another")
+		}
 	}
 }
